@@ -23,7 +23,7 @@ RULE = (
     "a switch turned On by a single assignment is On afterwards and in the message published for it; AnyOfMany changes only named "
     "switches; the last published message equals the final state. 'hidden': histories that also hide and show switches (element-level "
     "enabled flag): the rule is asserted over all switches of the property, hidden ones included. 'handlers': histories on a driver "
-    "whose switches have plain Change handlers that re-publish the vector or turn a fallback switch On while they run, or with a Read handler whose k-th poll raises: no state a "
+    "whose switches have plain Change handlers that re-publish the vector or turn a fallback switch On while they run, or with a Read handler whose k-th poll raises: 'veto': a Write handler declining values of one switch (prevent_default) x every client write of 1..n switches, exhaustively for n <= 3 / 4: no state a "
     "handler sees and no update published may break the rule. Non-trivial: the op turns Off the only On switch, or names >= 2 "
     "switches, or uses selected_value(s). Transitions are distinct by construction."
 )
@@ -352,6 +352,65 @@ def check_with_handlers(case):
     return Info(nontrivial=nt, labels=[case["rule"], case["mode"], f"n={n}"])
 
 
+def check_veto_block(case):
+    """Write handlers that decline a value (`event.prevent_default = True`, the documented "confirm later" pattern) on one
+    switch: every client write naming 1..n distinct switches in every order with every value combination, from this state.
+    case: {"rule", "n", "on": [indices], "only": [op, veto index, when]?}"""
+    from indi.device import events
+
+    rule, n, on = case["rule"], case["n"], case["on"]
+    n_eval = n_nt = 0
+    combos = []
+    for op in ops_for(n, n):
+        if op[0] != "client" or op[2]:
+            continue
+        for veto in range(n):
+            for when in ("always", "Off", "On"):
+                combos.append([op, veto, when])
+    if case.get("only"):
+        combos = [case["only"]]
+    for op, veto, when in combos:
+        rig = Rig(rule, n, on)
+        before = rig.state()
+
+        def cb(event, when=when):
+            if when == "always" or event.new_value == when:
+                event.prevent_default = True
+
+        getattr(rig.vec, f"e{veto}")._definition.attach_event_handler(events.Write, cb)
+        rig.published.clear()
+        where = f"{rule} n={n} before={before} op={op} the Write handler of S{veto} declines {when}"
+        try:
+            try:
+                rig.apply(op)
+            except Exception as e:  # noqa
+                raise Failure(f"raises:{op[0]}:{type(e).__name__}:veto", f"{where}: {type(e).__name__}: {e}")
+            after = rig.state()
+            check_rule_state(rule, sum(before), after, "state-with-declining-write-handler")
+            k = sum(before)
+            for m in rig.published:
+                if m.__class__.tag_name() == "setSwitchVector":
+                    vals = {c.name: c.value for c in m.children}
+                    s_ = tuple(vals.get(f"S{i}") == "On" for i in range(n))
+                    check_rule_state(rule, min(k, 1) if rule == "OneOfMany" else k, s_, "published-with-declining-write-handler")
+                    k = sum(s_)
+        except Failure as f:
+            f2 = Failure(f.sig, f"{where} after={rig.state()}: {f.msg}")
+            f2.min_case = {**case, "only": [op, veto, when]}
+            f2.min_sub = "veto"
+            raise f2
+        n_eval += 1
+        n_nt += len(op[1]) >= 2
+    return Info(n_eval=n_eval, n_nontrivial=n_nt, label_counts={rule: n_eval})
+
+
+def veto_blocks(tier):
+    for rule in gen.RULES:
+        for n in range(2, 4 if tier == "quick" else 5):
+            for bits in allowed_states(rule, n):
+                yield {"rule": rule, "n": n, "on": [i for i, b in enumerate(bits) if b]}
+
+
 idx = st.integers(0, 7)
 op_st = st.one_of(
     st.tuples(st.just("client"), st.lists(st.tuples(idx, st.booleans()).map(list), min_size=1, max_size=4), st.booleans()).map(list),
@@ -369,7 +428,7 @@ hidden_history = st.fixed_dictionaries({"rule": st.sampled_from(gen.RULES), "n":
 handler_history = st.fixed_dictionaries({"rule": st.sampled_from(gen.RULES), "n": st.integers(2, 5), "on": st.lists(idx, max_size=3), "ops": st.lists(op_st, min_size=1, max_size=20),
                                          "mode": st.sampled_from(["publish", "fallback", "observe", "read-raises", "read-raises"]), "fallback": idx, "fail_at": st.integers(0, 6)})
 
-SUBCHECKS = {"graph": check_graph_block, "history": check_history, "hidden": check_hidden, "handlers": check_with_handlers}
+SUBCHECKS = {"graph": check_graph_block, "history": check_history, "hidden": check_hidden, "handlers": check_with_handlers, "veto": check_veto_block}
 
 
 def graph_blocks(tier):
@@ -386,3 +445,5 @@ def run(ctx):
     ctx.hyp("history", history, check_history, ctx.scale(300, 5000))
     ctx.hyp("hidden", hidden_history, check_hidden, ctx.scale(400, 5000))
     ctx.hyp("handlers", handler_history, check_with_handlers, ctx.scale(500, 6000))
+    cnt = ctx.each("veto", veto_blocks(ctx.tier), check_veto_block, stop_after=3, timeout=150)
+    ctx.exhaustive["veto"] = {"complete": True, "n_states": cnt, "bound": "3 rules x n in 2..3 (quick) / 2..4 (thorough) x every allowed state x every client write naming 1..n distinct switches (orders x values) x declining switch x {always, Off, On}"}
